@@ -53,9 +53,22 @@ func VerifC06_WeightedCluster() {
 }
 
 func zzWeightedOnce(cfg []v2.WeightedCluster, w []int, n int, draw uint32, v int) {
-	rri := &RouteRuleImplBase{randInstance: rand.New(zzDrawSource{draw})}
-	rri.defaultCluster = &weightedClusterEntry{clusterName: "default"}
-	rri.weightedClusters, rri.totalClusterWeight = getWeightedClusterEntry(cfg)
+	// through the real constructor: what it derives from the configuration (the range of the
+	// draw in particular) is part of the claim
+	r := &v2.Router{}
+	r.Route.ClusterName = "default"
+	r.Route.WeightedClusters = cfg
+	rri, err := NewRouteRuleImplBase(nil, r)
+	verif.Assert(err == nil && rri != nil, "a route with weighted clusters was refused")
+	if rri == nil {
+		return
+	}
+	rri.randInstance = rand.New(zzDrawSource{draw})
+	sum := 0
+	for i := 0; i < n; i++ {
+		sum += w[i]
+	}
+	verif.Assert(int(rri.totalClusterWeight) == sum, "the range of the random draw is not the sum of the configured weights (a cluster's share is then not weight/total)")
 	got := rri.ClusterName(context.Background())
 	sel := -1
 	for i := 0; i < n; i++ {
